@@ -227,7 +227,7 @@ func (e *connEnd) deliver() {
 	// from execution to execution: deliver them whole and keep sizes out of the log
 	volatile := false
 	for _, ch := range e.inflight {
-		if bytes.Contains(ch, []byte("heap_size")) {
+		if bytes.Contains(ch, []byte("heap_size")) || bytes.Contains(ch, []byte("used_memory")) {
 			volatile = true
 			mode = cutWhole
 			break
